@@ -232,6 +232,22 @@ package lock
 //@   at select#1 assert [C13.outer.rlock.waits-on-ctx.answer] res0 >= 0 && selhas(ctx.donech)
 //@   at select#1 assert [C13.outer.rlock.answer] selcases == 2 && selhas(o.closeCh) && selhas(h.respCh)
 //@   ensures [C13.outer.rlock.err] result2 != nil ==> (result == nil && result1 == nil)
+// "an acquisition that reports an error holds nothing": once the request is queued the handler will grant it (a reader
+// slot, a WaitGroup count) unless it answers with an error, so RLock may leave only with the handler's answer (which
+// carries the release function or the error) or at shutdown (which releases every reader) - never by abandoning the
+// queued request. (A repair of known finding C13-D2 that listens on the context here has to hand the pending answer
+// to somebody who releases it; this clause is where that duty is stated.)
+//@   ghost queued bool
+//@   ghost answered bool
+//@   ghost shut bool
+//@   at entry ghost queued = false
+//@   at entry ghost answered = false
+//@   at entry ghost shut = false
+//@   at select#0 ghost queued = (res0 >= 0 && selsend && selchan == o.ch)
+//@   at every select ghost answered = answered || (res0 >= 0 && !selsend && selchan == h.respCh)
+//@   at every select ghost shut = shut || (res0 >= 0 && !selsend && selchan == o.closeCh)
+//@   ensures [C13.outer.rlock.queued-not-abandoned] queued ==> (answered || shut)
+//@   ensures [C13.outer.rlock.unqueued] !queued ==> result2 != nil
 //@   ensures [C13.outer.rlock.ok] result2 == nil ==> result1 != nil
 
 // Lock takes no context and reports no error. While the lock is running it returns what the answer to its request
@@ -249,6 +265,13 @@ package lock
 //@   at select#1 assert [C13.outer.lock.answer] selblocking && selcases == 2 && selhas(o.closeCh) && selhas(h.respCh) && queued
 //@   ensures [C13.outer.lock.shutdown] !viaAnswer ==> (isfunc(result, "(*github.com/dapr/kit/concurrency/fifo.Mutex).Unlock$bound") && bound(result, 0, "*github.com/dapr/kit/concurrency/fifo.Mutex") == o.shutdownLock && nsl == 1)
 //@   ensures [C13.outer.lock.running] viaAnswer ==> nsl == 0
+// "never admit two exclusive holders ... for the same lock": exclusion between writers is the 1-slot token o.lock. A writer
+// granted while the lock was running keeps the token until it unlocks ([C13.outer.writer.keeps]); a writer granted after
+// shutdown therefore has to take the token as well. It does not (it takes only the shutdown mutex): KNOWN FINDING C13-D3,
+// /verif/demos/C13-outercancel-writer-across-shutdown_test.go.txt (w1 := Lock(); shutdown; w2 := Lock() is granted at once).
+//@   at every send ghost o.tokens = o.tokens + (arg0 == o.lock ? 1 : 0)
+//@   at every select ghost o.tokens = o.tokens + ((res0 >= 0 && selsend && selchan == o.lock) ? 1 : 0)
+//@   ensures [C13.outer.lock.shutdown.takes-token] !viaAnswer ==> o.tokens == old(o.tokens) + 1
 //@   ghost nsl int
 //@   at entry ghost nsl = 0
 //@   at every call Lock ghost nsl = nsl + (arg0 == o.shutdownLock ? 1 : 100)
